@@ -310,3 +310,374 @@ Proof.
   - exists R. split; [reflexivity|]. split; [exact P|]. split; [exact HR|]. split; [apply (c_recs _ _ _ HR)|]. split; [eapply mk_conv_swf; eauto|].
     split; [exact L|auto].
 Qed.
+
+(* ---- Stage 3b: only the documented errors ---- *)
+Lemma filter_length_le' {A} (p : A -> bool) l : length (filter p l) <= length l.
+Proof. induction l as [|a l IH]; simpl; auto. destruct (p a); simpl; lia. Qed.
+Lemma filter_length_lt {A} (p : A -> bool) l x : In x l -> p x = false -> length (filter p l) < length l.
+Proof.
+  induction l as [|a l IH]; simpl; intros Hin Hp; [destruct Hin|]. destruct Hin as [<-|Hin].
+  - rewrite Hp. pose proof (filter_length_le' p l). lia.
+  - specialize (IH Hin Hp). destruct (p a); simpl; lia.
+Qed.
+Lemma filter_perm {A} (p : A -> bool) l : Permutation (filter p l ++ filter (fun x => negb (p x)) l) l.
+Proof.
+  induction l as [|a l IH]; simpl; auto. destruct (p a); simpl.
+  - constructor. exact IH.
+  - rewrite <- Permutation_middle. constructor. exact IH.
+Qed.
+
+Lemma layers_spec fuel : forall d, length d <= fuel ->
+  (forall e, layers fuel d = Raise e -> e = ECycleDetected) /\ (forall out, layers fuel d = Val out -> Permutation out d).
+Proof.
+  induction fuel as [|f IH]; intros d Hl.
+  - destruct d; [|simpl in Hl; lia]. simpl. split; [discriminate|]. intros out H; inversion H; auto.
+  - destruct d as [|p0 d0]; [simpl; split; [discriminate|intros out H; inversion H; auto]|].
+    set (d := p0 :: d0) in *. unfold layers; fold layers.
+    change (match d with [] => Val [] | _ :: _ => _ end) with
+      (let keys := map fst d in let no_out := filter (fun v => negb (mem v keys)) (map snd d) in
+       match no_out with
+       | [] => Raise ECycleDetected
+       | _ :: _ => bind (layers f (filter (fun kv => negb (mem (snd kv) no_out)) d))
+                        (fun rest => Val (sort_pairs (filter (fun kv => mem (snd kv) no_out) d) ++ rest)) end).
+    cbv zeta. set (no_out := filter _ (map snd d)).
+    destruct no_out as [|v vs] eqn:En; [split; [intros e H; inversion H; auto|discriminate]|].
+    rewrite <- En.
+    assert (Hlt: length (filter (fun kv => negb (mem (snd kv) no_out)) d) <= f).
+    { assert (Hv: In v no_out) by (rewrite En; left; auto).
+      assert (Hv': In v (map snd d)) by (unfold no_out in Hv; apply filter_In in Hv; apply Hv).
+      apply in_map_iff in Hv' as (kv & Ekv & Hkv).
+      assert (length (filter (fun kv => negb (mem (snd kv) no_out)) d) < length d).
+      { apply (filter_length_lt _ d kv); auto. rewrite Ekv. apply negb_false_iff. apply mem_In; auto. }
+      lia. }
+    destruct (IH _ Hlt) as [IHe IHv].
+    destruct (layers f (filter (fun kv => negb (mem (snd kv) no_out)) d)) as [rest|e0] eqn:El; cbn [bind].
+    + split; [discriminate|]. intros out H.
+      assert (Eo: out = sort_pairs (filter (fun kv => mem (snd kv) no_out) d) ++ rest) by congruence. rewrite Eo. clear H Eo.
+      specialize (IHv rest eq_refl). rewrite IHv. unfold sort_pairs. rewrite sort_perm. apply filter_perm.
+    + split; [|discriminate]. intros e H; inversion H; subst. auto.
+Qed.
+
+Theorem order_errors c m e : order_curie_remapping c m = Raise e ->
+  e = EDuplicateKeys \/ e = EDuplicateValues \/ e = EInconsistentMapping \/ e = ECycleDetected.
+Proof.
+  unfold order_curie_remapping.
+  destruct (has_dup_group _ false); [intro H; inversion H; auto|].
+  destruct (has_dup_group _ false); [intro H; inversion H; auto|].
+  destruct (has_dup_group _ true); [intro H; inversion H; auto|].
+  destruct (inter _ _); [discriminate|]. intro H. right; right; right.
+  apply (proj1 (layers_spec (length m) m (le_n _)) e H).
+Qed.
+Theorem order_perm c m ordering : order_curie_remapping c m = Val ordering -> Permutation ordering m.
+Proof.
+  unfold order_curie_remapping.
+  destruct (has_dup_group _ false); [discriminate|]. destruct (has_dup_group _ false); [discriminate|].
+  destruct (has_dup_group _ true); [discriminate|].
+  destruct (inter _ _).
+  - intro H; inversion H. unfold sort_pairs. apply sort_perm.
+  - intro H. apply (proj2 (layers_spec (length m) m (le_n _)) ordering H).
+Qed.
+
+(* ---- the duplicate-keys check makes the pop bookkeeping safe ---- *)
+Lemma okey_eqb_refl k : okey_eqb k k = true.
+Proof. destruct k; simpl; auto. apply str_eqb_refl. Qed.
+Lemma okey_eqb_eq a b : okey_eqb a b = true <-> a = b.
+Proof. destruct a, b; simpl; split; intro H; try discriminate; auto; [apply str_eqb_eq in H; congruence|inversion H; apply str_eqb_refl]. Qed.
+
+Definition glen (K : option str) (g : list (option str * list str)) : nat :=
+  match List.find (fun e => okey_eqb K (fst e)) g with Some e => length (snd e) | None => 0 end.
+Lemma glen_group_add K k v g : glen K (group_add k v g) = if okey_eqb K k then S (glen K g) else glen K g.
+Proof.
+  unfold glen. induction g as [|[k' vs] g IH]; simpl.
+  - destruct (okey_eqb K k); reflexivity.
+  - destruct (okey_eqb k k') eqn:E; simpl.
+    + apply okey_eqb_eq in E. subst k'. destruct (okey_eqb K k); simpl; [rewrite app_length; simpl; lia|reflexivity].
+    + destruct (okey_eqb K k') eqn:E2; simpl.
+      * apply okey_eqb_eq in E2. subst k'. destruct (okey_eqb K k) eqn:E3; auto.
+        apply okey_eqb_eq in E3. subst. rewrite okey_eqb_refl in E. discriminate.
+      * exact IH.
+Qed.
+Section Count.
+Variables (A : Type) (f : A -> option str) (v : A -> str).
+Definition kcount (K : option str) (items : list A) : nat := length (filter (fun x => okey_eqb K (f x)) items).
+Lemma glen_fold K items : forall g, glen K (fold_left (fun g x => group_add (f x) (v x) g) items g) = glen K g + kcount K items.
+Proof.
+  induction items as [|x items IH]; intro g; simpl; [unfold kcount; simpl; lia|].
+  rewrite IH, glen_group_add. unfold kcount. simpl. destruct (okey_eqb K (f x)); simpl; lia.
+Qed.
+End Count.
+Lemma has_dup_glen g o : has_dup_group g false = false -> glen (Some o) g <= 1.
+Proof.
+  unfold has_dup_group, glen. intro H. destruct (List.find _ g) as [[k l]|] eqn:F; [|lia].
+  apply find_some in F as [Hin E]. simpl in E. destruct k as [k|]; [|discriminate].
+  pose proof (existsb_false _ _ H (Some k, l) Hin) as Hn. simpl in Hn. apply Nat.ltb_ge in Hn. simpl. lia.
+Qed.
+
+Definition stds (c : conv) (l : list (str * str)) : list str :=
+  flat_map (fun kv => match std c (fst kv) with Some o => [o] | None => [] end) l.
+Lemma kcount_stds c l o : kcount _ (fun kv : str * str => std c (fst kv)) (Some o) l = length (filter (str_eqb o) (stds c l)).
+Proof.
+  unfold kcount, stds. induction l as [|[k w] l IH]; [reflexivity|].
+  cbn [filter flat_map fst]. destruct (std c k) as [o'|] eqn:Es.
+  - cbn [okey_eqb app filter]. destruct (str_eqb o o'); cbn [length]; [f_equal|]; exact IH.
+  - cbn [okey_eqb app]. exact IH.
+Qed.
+Lemma count_le1_nodup (l : list str) : (forall o, length (filter (str_eqb o) l) <= 1) -> NoDup l.
+Proof.
+  induction l as [|a l IH]; intro H; constructor.
+  - intro Hin. specialize (H a). simpl in H. rewrite str_eqb_refl in H. simpl in H.
+    assert (In a (filter (str_eqb a) l)) by (apply filter_In; split; auto; apply str_eqb_refl).
+    destruct (filter (str_eqb a) l); [destruct H0|simpl in H; lia].
+  - apply IH. intro o. specialize (H o). simpl in H. destruct (str_eqb o a); simpl in H; lia.
+Qed.
+Theorem order_keys_nodup c m ordering : order_curie_remapping c m = Val ordering -> NoDup (stds c ordering).
+Proof.
+  intro H. pose proof (order_perm c m ordering H) as P.
+  assert (Nm: NoDup (stds c m)).
+  { unfold order_curie_remapping in H.
+    destruct (has_dup_group (fold_left (fun g kv => group_add (std c (fst kv)) (fst kv) g) m []) false) eqn:D; [discriminate|].
+    apply count_le1_nodup. intro o. rewrite <- kcount_stds.
+    pose proof (has_dup_glen _ o D) as G. rewrite (glen_fold _ (fun kv => std c (fst kv)) (fun kv => fst kv)) in G.
+    unfold glen in G at 1. simpl in G. lia. }
+  eapply Permutation_NoDup; [|exact Nm]. unfold stds. apply Permutation_flat_map. symmetry. exact P.
+Qed.
+
+(* the loop never raises *)
+Lemma std_tag c old orig : swf c -> std c old = Some orig -> In orig (map r_prefix (recs c)).
+Proof.
+  intros (W & _) H. unfold std in H. rewrite (wf_syn _ _ _ W) in H.
+  destruct (owner_by_prefix (recs c) old) as [r|] eqn:E; [|discriminate]. inversion H; subst.
+  apply find_some in E as [Hr _]. apply in_map; auto.
+Qed.
+Lemma fold_never_raises c m inter l0 ordering : swf c -> l0 = recs c -> forall st, Frame l0 (rs_cur st) -> Strict (rs_cur st) -> BK st ->
+  NoDup (stds c ordering) -> (forall o, In o (rs_popped st) -> ~ In o (stds c ordering)) ->
+  exists st', fold_left (remap_step c m inter) ordering (Val st) = Val st'.
+Proof.
+  intros S ->. induction ordering as [|[old new] ordering IH]; intros st F St B N D; [simpl; eauto|].
+  change (fold_left (remap_step c m inter) ((old, new) :: ordering) (Val st)) with
+         (fold_left (remap_step c m inter) ordering (remap_step c m inter (Val st) (old, new))).
+  assert (Hstep: exists st1, remap_step c m inter (Val st) (old, new) = Val st1 /\
+            (forall o, In o (rs_popped st1) -> In o (rs_popped st) \/ std c old = Some o)).
+  { unfold remap_step. cbn [bind]. destruct (std c old) as [orig|] eqn:Es; [|eauto].
+    assert (Hnp: ~ In orig (rs_popped st)).
+    { intro Hp. apply (D orig Hp). unfold stds. simpl. rewrite Es. left; auto. }
+    apply mem_false in Hnp. rewrite Hnp.
+    destruct (List.find (fun or => str_eqb (fst or) orig) (rs_cur st)) as [[o rc]|] eqn:Ef.
+    - destruct (match cur_get_record (rs_cur st) new with Some (o2, _) => negb (str_eqb o2 orig) | None => false end).
+      + eexists. split; [reflexivity|]. simpl. intros o0 [<-|H]; auto.
+      + destruct (mem old inter && _); eexists; (split; [reflexivity|]); simpl; intros o0 [<-|H]; auto.
+    - exfalso. destruct F as [F1 _]. pose proof (std_tag c old orig S Es) as Ht. rewrite <- F1 in Ht.
+      apply in_map_iff in Ht as ([o x] & E & Hin). simpl in E. subst o.
+      pose proof (find_none _ _ Ef (orig, x) Hin) as Hn. simpl in Hn. rewrite str_eqb_refl in Hn. discriminate. }
+  destruct Hstep as (st1 & E1 & Hpop). rewrite E1.
+  pose proof (remap_step_cur _ _ _ _ _ _ E1) as Ec. destruct (step_cur_inv c m inter (recs c) (rs_cur st) (old, new) F St) as [F1 S1].
+  rewrite <- Ec in F1, S1.
+  apply IH; auto.
+  - eapply remap_step_bk; eauto.
+  - unfold stds in N. simpl in N. apply NoDup_app_inv in N. apply N.
+  - intros o Ho Hin. apply Hpop in Ho as [Ho|Ho].
+    + apply (D o Ho). unfold stds. simpl. apply in_or_app. right. exact Hin.
+    + unfold stds in N. simpl in N. rewrite Ho in N. simpl in N. inversion N; subst. contradiction.
+Qed.
+
+(* ---- Stage 4: nothing is lost ---- *)
+(* topological property of the layered ordering: a pair (a -> b) comes before every pair (k -> a) *)
+Lemma filter_keys_nodup {V} (p : str * V -> bool) (d : list (str * V)) : NoDup (map fst d) -> NoDup (map fst (filter p d)).
+Proof.
+  induction d as [|x d IH]; simpl; intro N; [constructor|]. inversion N as [|? ? Hn Hd]; subst.
+  destruct (p x); simpl; [|apply IH; exact Hd]. constructor; [|apply IH; exact Hd].
+  intro Hin. apply Hn. apply in_map_iff in Hin as (y & Ey & Hy). apply filter_In in Hy as [Hy _]. apply in_map_iff. eauto.
+Qed.
+Lemma layers_topo fuel : forall d out, length d <= fuel -> NoDup (map fst d) -> layers fuel d = Val out ->
+  forall a b k, In (a, b) d -> In (k, a) d -> (k, a) <> (a, b) -> exists l1 l2, out = l1 ++ (a, b) :: l2 /\ In (k, a) l2.
+Proof.
+  induction fuel as [|f IH]; intros d out Hl N H a b k Hab Hka Hne.
+  - destruct d; [destruct Hab|simpl in Hl; lia].
+  - destruct d as [|p0 d0]; [destruct Hab|]. set (d := p0 :: d0) in *.
+    unfold layers in H; fold layers in H.
+    change (match d with [] => Val [] | _ :: _ => _ end) with
+      (let keys := map fst d in let no_out := filter (fun v => negb (mem v keys)) (map snd d) in
+       match no_out with
+       | [] => Raise ECycleDetected
+       | _ :: _ => bind (layers f (filter (fun kv => negb (mem (snd kv) no_out)) d))
+                        (fun rest => Val (sort_pairs (filter (fun kv => mem (snd kv) no_out) d) ++ rest)) end) in H.
+    cbv zeta in H. set (no_out := filter _ (map snd d)) in *.
+    destruct no_out as [|v vs] eqn:En; [discriminate|]. rewrite <- En in H.
+    assert (Hlt: length (filter (fun kv => negb (mem (snd kv) no_out)) d) <= f).
+    { assert (Hv: In v no_out) by (rewrite En; left; auto).
+      assert (Hv': In v (map snd d)) by (unfold no_out in Hv; apply filter_In in Hv; apply Hv).
+      apply in_map_iff in Hv' as (kv & Ekv & Hkv).
+      assert (length (filter (fun kv => negb (mem (snd kv) no_out)) d) < length d).
+      { apply (filter_length_lt _ d kv); auto. rewrite Ekv. apply negb_false_iff. apply mem_In; auto. }
+      lia. }
+    destruct (layers f (filter (fun kv => negb (mem (snd kv) no_out)) d)) as [rest|e0] eqn:El; cbn [bind] in H; [|discriminate].
+    assert (Eo: out = sort_pairs (filter (fun kv => mem (snd kv) no_out) d) ++ rest) by congruence. clear H.
+    set (restd := filter (fun kv => negb (mem (snd kv) no_out)) d) in *.
+    assert (Pr: Permutation rest restd) by (apply (proj2 (layers_spec f restd Hlt) rest El)).
+    (* (k, a): a is a key of d, so a is not in no_out *)
+    assert (Ha: mem a no_out = false).
+    { apply mem_false. unfold no_out. intro Hin. apply filter_In in Hin as [_ Hn]. apply negb_true_iff, mem_false in Hn.
+      apply Hn. apply in_map_iff. exists (a, b). auto. }
+    assert (Hka': In (k, a) restd) by (unfold restd; apply filter_In; split; auto; simpl; rewrite Ha; reflexivity).
+    destruct (mem b no_out) eqn:Hb.
+    + (* (a, b) is emitted in this layer *)
+      assert (He: In (a, b) (sort_pairs (filter (fun kv => mem (snd kv) no_out) d))).
+      { unfold sort_pairs. apply sort_In. apply filter_In. split; auto. }
+      apply in_split in He as (e1 & e2 & Ee). exists e1, (e2 ++ rest). split.
+      * rewrite Eo, Ee, <- app_assoc. reflexivity.
+      * apply in_or_app. right. eapply Permutation_in; [symmetry; exact Pr|exact Hka'].
+    + assert (Hab': In (a, b) restd) by (unfold restd; apply filter_In; split; auto; simpl; rewrite Hb; reflexivity).
+      assert (Nr: NoDup (map fst restd)).
+      { unfold restd. apply filter_keys_nodup. exact N. }
+      destruct (IH restd rest Hlt Nr El a b k Hab' Hka' Hne) as (l1 & l2 & E12 & Hin).
+      exists (sort_pairs (filter (fun kv => mem (snd kv) no_out) d) ++ l1), l2. split; auto.
+      rewrite Eo, E12, <- app_assoc. reflexivity.
+Qed.
+
+Theorem order_topo c m ordering : NoDup (map fst m) -> order_curie_remapping c m = Val ordering ->
+  forall a b k, In (a, b) m -> In (k, a) m -> (k, a) <> (a, b) -> exists l1 l2, ordering = l1 ++ (a, b) :: l2 /\ In (k, a) l2.
+Proof.
+  intros N H a b k Hab Hka Hne. unfold order_curie_remapping in H.
+  destruct (has_dup_group _ false); [discriminate|]. destruct (has_dup_group _ false); [discriminate|].
+  destruct (has_dup_group _ true); [discriminate|].
+  destruct (inter (map fst m) (map snd m)) as [|s l] eqn:E.
+  - exfalso. assert (In a (inter (map fst m) (map snd m))).
+    { apply inter_In. split; apply in_map_iff; [exists (a, b)|exists (k, a)]; auto. }
+    rewrite E in H0. destruct H0.
+  - apply (layers_topo (length m) m ordering (le_n _) N H a b k Hab Hka Hne).
+Qed.
+
+Definition knownc (cur : tagged) (p : str) : Prop := exists o x, In (o, x) cur /\ In p (all_prefixes x).
+
+(* one step: what can happen to a known prefix p *)
+Lemma step_known c m inter l0 cur old new p : swf c -> l0 = recs c -> Frame l0 cur -> Strict cur -> knownc cur p ->
+  knownc (step_cur c m inter cur (old, new)) p \/
+  (p = old /\ old <> new /\ handover_cond c m inter old = true).
+Proof.
+  intros S -> F St (o & x & Hin & Hp). unfold step_cur.
+  destruct (std c old) as [orig|] eqn:Es; [|left; exists o, x; auto].
+  destruct (List.find _ cur) as [[o1 rc]|] eqn:Ef; [|left; exists o, x; auto]. apply find_tag in Ef as [-> Hrc].
+  destruct (match cur_get_record cur new with Some (o2, _) => negb (str_eqb o2 orig) | None => false end); [left; exists o, x; auto|].
+  destruct (str_eq_dec o orig) as [->|Hne].
+  - rewrite (tag_functional cur orig x rc (proj1 St) Hin Hrc) in *.
+    destruct (str_eq_dec p new) as [->|Hpn].
+    + left. exists orig, (renamed rc old new (handover_cond c m inter old)). split; [apply set_cur_In; left; repeat split; auto; apply in_map_iff; exists (orig, rc); auto|].
+      apply renamed_prefixes. auto.
+    + destruct (handover_cond c m inter old) eqn:Hh; [destruct (str_eq_dec p old) as [->|Hpo]|].
+      * right. repeat split; auto.
+      * left. exists orig, (renamed rc old new true). split; [apply set_cur_In; left; repeat split; auto; apply in_map_iff; exists (orig, rc); auto|].
+        apply renamed_prefixes. right. repeat split; auto.
+      * left. exists orig, (renamed rc old new false). split; [apply set_cur_In; left; repeat split; auto; apply in_map_iff; exists (orig, rc); auto|].
+        apply renamed_prefixes. right. repeat split; auto. discriminate.
+  - left. exists o, x. split; auto. apply set_cur_In. right. auto.
+Qed.
+
+(* processing an applicable pair (k -> p) makes p known (it is regained if it was handed over) *)
+Lemma step_regain c m inter l0 cur k p : swf c -> l0 = recs c -> Frame l0 cur -> Strict cur -> std c k <> None ->
+  knownc (step_cur c m inter cur (k, p)) p.
+Proof.
+  intros S -> F St Hk. unfold step_cur. destruct (std c k) as [orig|] eqn:Es; [|congruence].
+  destruct (List.find _ cur) as [[o1 rc]|] eqn:Ef.
+  - apply find_tag in Ef as [-> Hrc].
+    destruct (cur_get_record cur p) as [[o2 x2]|] eqn:G.
+    + apply cur_get_some in G as [Hin2 Hp2]. destruct (negb (str_eqb o2 orig)) eqn:E.
+      * exists o2, x2. auto.
+      * exists orig, (renamed rc k p (handover_cond c m inter k)). split; [apply set_cur_In; left; repeat split; auto; apply in_map_iff; exists (orig, rc); auto|].
+        apply renamed_prefixes. auto.
+    + exists orig, (renamed rc k p (handover_cond c m inter k)). split; [apply set_cur_In; left; repeat split; auto; apply in_map_iff; exists (orig, rc); auto|].
+      apply renamed_prefixes. auto.
+  - exfalso. destruct F as [F1 _]. pose proof (std_tag c k orig S Es) as Ht. rewrite <- F1 in Ht.
+    apply in_map_iff in Ht as ([o x] & E & Hin). simpl in E. subst o.
+    pose proof (find_none _ _ Ef (orig, x) Hin) as Hn. simpl in Hn. rewrite str_eqb_refl in Hn. discriminate.
+Qed.
+
+Lemma handover_witness c m inter old : handover_cond c m inter old = true -> exists k, In (k, old) m /\ std c k <> None.
+Proof.
+  unfold handover_cond. intro H. apply andb_true_iff in H as [_ H]. apply existsb_exists in H as ([k v] & Hin & E).
+  simpl in E. apply andb_true_iff in E as [E1 E2]. apply str_eqb_eq in E1. subst v. exists k. split; auto.
+  unfold std. apply dhas_dget in E2 as [w Hw]. congruence.
+Qed.
+
+(* the invariant: every originally known prefix is known, or is waiting for an applicable pair still to come *)
+Theorem none_lost_fold c m ordering : swf c -> NoDup (map fst m) -> order_curie_remapping c m = Val ordering ->
+  forall pre rem, ordering = pre ++ rem ->
+  let cur := fold_left (step_cur c m (inter (map fst m) (map snd m))) pre (cur0 c) in
+  Frame (recs c) cur /\ Strict cur /\
+  forall p, knownc (cur0 c) p -> knownc cur p \/ exists k, In (k, p) rem /\ std c k <> None.
+Proof.
+  intros S N Ho. set (I := inter (map fst m) (map snd m)).
+  destruct (init_inv c S) as (F0 & S0 & _).
+  assert (Pm: forall x, In x ordering <-> In x m) by (intro x; split; apply Permutation_in; [|symmetry]; apply (order_perm c m ordering Ho)).
+  induction pre as [|on pre IH] using rev_ind; intros rem E; simpl.
+  - repeat split; auto; try apply F0; try apply S0.
+  - rewrite fold_left_app. simpl. rewrite <- app_assoc in E. simpl in E.
+    destruct (IH (on :: rem) E) as (F & St & J). clear IH.
+    set (cur := fold_left (step_cur c m I) pre (cur0 c)) in *.
+    destruct (step_cur_inv c m I (recs c) cur on F St) as [F' S'].
+    split; [exact F'|]. split; [exact S'|]. intros p Hp0. destruct on as [old new].
+    destruct (J p Hp0) as [Hk|(k & Hin & Hkk)].
+    + destruct (step_known c m I (recs c) cur old new p S eq_refl F St Hk) as [Hk'|(-> & Hne & Hh)]; [left; auto|].
+      right. destruct (handover_witness c m I old Hh) as (k & Hkm & Hkk). exists k. split; auto.
+      assert (Hd: (k, old) <> (old, new)) by (intro X; inversion X; subst; congruence).
+      assert (Hm: In (old, new) m) by (apply Pm; rewrite E; apply in_or_app; right; left; auto).
+      destruct (order_topo c m ordering N Ho old new k Hm Hkm Hd) as (l1 & l2 & E12 & Hin2).
+      (* the occurrence of (old, new) in the ordering is unique (dictionary keys), so l1 = pre and l2 = rem *)
+      assert (Nk: NoDup (map fst ordering)).
+      { eapply Permutation_NoDup; [apply Permutation_map; symmetry; apply (order_perm c m ordering Ho)|exact N]. }
+      assert (l2 = rem); [|subst; auto].
+      clear -E E12 Nk. revert l1 E12. rewrite E in *. clear E. induction pre as [|a pre IHp]; intros l1 E12.
+      * destruct l1 as [|b l1]; simpl in *; [inversion E12; auto|]. inversion E12; subst. exfalso.
+        inversion Nk as [|? ? Hn _]; subst. apply Hn. rewrite map_app. apply in_or_app. right. left. reflexivity.
+      * destruct l1 as [|b l1]; simpl in *.
+        -- inversion E12; subst. exfalso. inversion Nk as [|? ? Hn _]; subst. apply Hn. rewrite map_app. apply in_or_app. right. left. reflexivity.
+        -- inversion E12; subst. inversion Nk; subst. eapply IHp; eauto.
+    + destruct Hin as [Eq|Hin]; [|right; eauto]. inversion Eq; subst. left.
+      apply (step_regain c m I (recs c) cur k p S eq_refl F St Hkk).
+Qed.
+
+(* ---- the main theorem ---- *)
+Definition documented (e : err) : Prop := e = EDuplicateKeys \/ e = EDuplicateValues \/ e = EInconsistentMapping \/ e = ECycleDetected.
+
+Theorem remap_curie_main c m : swf c -> NoDup (map fst m) ->
+  (exists e, remap_curie_prefixes c m = Raise e /\ documented e) \/
+  (exists R rs, remap_curie_prefixes c m = Val R /\ recs R = sort_records rs /\ swf R /\
+     length rs = length (recs c) /\
+     Permutation (map frame_of rs) (map frame_of (recs c)) /\
+     (forall p, (exists r, In r (recs c) /\ In p (all_prefixes r)) -> exists r', In r' rs /\ In p (all_prefixes r'))).
+Proof.
+  intros S N. destruct (order_curie_remapping c m) as [ordering|e] eqn:Ho.
+  - right. destruct (init_inv c S) as (F0 & S0 & B0).
+    destruct (fold_never_raises c m (inter (map fst m) (map snd m)) (recs c) ordering S eq_refl (st0 c) F0 S0 B0
+               (order_keys_nodup c m ordering Ho) (fun o H => match H with end)) as [st Hst].
+    destruct (remap_struct c m ordering st S Ho Hst) as (rs & R & E1 & P & E2 & E3 & SR & L & T & Fr & Ecur).
+    exists R, rs. refine (conj E2 (conj E3 (conj SR (conj L (conj _ _))))).
+    + apply (Permutation_trans (Permutation_map frame_of P)). rewrite map_map. rewrite Fr. reflexivity.
+    + intros p (r & Hr & Hp).
+      destruct (none_lost_fold c m ordering S N Ho ordering [] (eq_sym (app_nil_r _))) as (_ & _ & J).
+      destruct (J p) as [(o & x & Hin & Hx)|(k & [] & _)].
+      * exists (r_prefix r), r. split; auto. unfold cur0. apply in_map_iff. exists r. auto.
+      * exists x. split; auto. eapply Permutation_in; [symmetry; exact P|]. rewrite Ecur. apply in_map_iff. exists (o, x). auto.
+  - left. exists e. split; [|apply (order_errors c m e Ho)].
+    unfold remap_curie_prefixes, remap_curie_records. rewrite Ho. reflexivity.
+Qed.
+
+(* what one pair does: applied (new becomes the canonical prefix of old's record) or skipped (nothing changes) *)
+Theorem pair_applied c m inter cur old new orig rc : std c old = Some orig ->
+  List.find (fun or : str * record => str_eqb (fst or) orig) cur = Some (orig, rc) -> cur_get_record cur new = None ->
+  step_cur c m inter cur (old, new) = set_cur orig (renamed rc old new (handover_cond c m inter old)) cur /\
+  r_prefix (renamed rc old new (handover_cond c m inter old)) = new.
+Proof. intros Es Ef G. unfold step_cur. rewrite Es, Ef, G. auto. Qed.
+Theorem pair_skipped_unknown c m inter cur old new : std c old = None -> step_cur c m inter cur (old, new) = cur.
+Proof. intro Es. unfold step_cur. rewrite Es. reflexivity. Qed.
+Theorem pair_skipped_clash c m inter cur old new orig o2 x2 : std c old = Some orig ->
+  cur_get_record cur new = Some (o2, x2) -> o2 <> orig -> step_cur c m inter cur (old, new) = cur.
+Proof.
+  intros Es G Hne. unfold step_cur. rewrite Es. destruct (List.find _ cur) as [[o rc]|]; auto. rewrite G.
+  apply str_eqb_neq in Hne. rewrite Hne. reflexivity.
+Qed.
+(* old names stay behind as synonyms unless they are handed over to the record of an applicable pair *)
+Theorem renamed_keeps rc old new h x : In x (all_prefixes rc) -> x <> old \/ h = false \/ old = new -> In x (all_prefixes (renamed rc old new h)).
+Proof.
+  intros Hx Hc. apply renamed_prefixes. destruct (str_eq_dec x new) as [->|Hn]; auto. right. repeat split; auto.
+  intros -> ->. destruct Hc as [H|[H|H]]; congruence.
+Qed.
